@@ -1,11 +1,17 @@
 #!/bin/bash
-# usage: harness/seedtest.sh <worktree> <Cxx> [tier]   — run a check against another checkout, then restore
-# the generated Lean files and the evidence of this repository (they must always describe /repo itself).
-cd "$(dirname "$(readlink -f "$0")")/.."
+# usage: harness/seedtest.sh <worktree> <Cxx> [tier]   — run a check against another checkout, in a scratch COPY of this
+# directory (generated Lean files, lake build and evidence are per-checkout state), so several can run in parallel and
+# /verif itself always describes /repo.  Prints the VIOLATION / TIE-DOWNGRADED / summary lines and exit=<code>.
+SRC="$(dirname "$(readlink -f "$0")")/.."
 WT="$1"; P="$2"; TIER="${3:-quick}"
-NESSAI_REPO="$WT" ./check "$P" --tier "$TIER" > "/tmp/seedtest-$P.log" 2>&1
+COPY=$(mktemp -d /tmp/seedtest-XXXXXX)
+rsync -a --exclude replay "$SRC/" "$COPY/" || exit 2
+cd "$COPY"
+TAG=$(basename "$(dirname "$WT")")-$(basename "$WT")
+NESSAI_REPO="$WT" ./check "$P" --tier "$TIER" > "/tmp/seedtest-$TAG-$P.log" 2>&1
 RC=$?
-grep -a "VIOLATION\|^\[$P\]" "/tmp/seedtest-$P.log" | grep -v "KNOWN-FINDING" | tail -6
-echo "exit=$RC"
-git checkout -- lean/NessaiVerif/Gen "evidence/$P.json" 2>/dev/null
+grep -a "VIOLATION\|TIE-DOWNGRADED\|^\[$P\]" "/tmp/seedtest-$TAG-$P.log" | grep -v "KNOWN-FINDING" | cut -c1-220 | tail -6
+mkdir -p "$SRC/replay"; cp -n replay/*.json "$SRC/replay/" 2>/dev/null
+echo "$TAG $P exit=$RC"
+cd /; rm -rf "$COPY"
 exit 0
